@@ -16,3 +16,7 @@ package consensus
 // strictly before the tick's proof time, whatever the node's frontier is when the schedule is computed.
 //@ func getMomentumBeforeTime(chain, t) -> (m, err)
 //@   ensures[strictly-before] err == nil ==> m != nil && m.Timestamp != nil && timenano(m.Timestamp) < timenano(t)
+
+// The pillar reader handed to the VM is fixed at the given momentum (C02); creating it reads only.
+//@ func Consensus.FixedPillarReader(self, identifier)
+//@   modifies nothing
